@@ -72,7 +72,7 @@ func renderListing(funcs []function, i386 bool, table map[int]string, r *rand.Ra
 	addr := 0x401000
 	line := func(fn int, asm string) {
 		addr += 3
-		fmt.Fprintf(&b, "  file%d.go:%d\t\t0x%x\t\t%x\t\t%s\t\n", fn, 10+addr%90, addr, addr*2654435761&0xffffffffff, asm)
+		fmt.Fprintf(&b, "  file%d.go:%d\t\t0x%x\t\t%x\t\t%s\t\n", fn, 10+addr%90, addr, uint64(addr)*2654435761&0xffffffffff, asm)
 	}
 	trap := func() string {
 		if i386 {
